@@ -17,6 +17,10 @@ fn main() {
     std::process::exit(2);
   }
   let mode = args[1].as_str();
+  if mode == "probe" {
+    probe(&args[2..]);
+    return;
+  }
   let def = match props::find(&args[2]) {
     Some(d) => d,
     None => {
@@ -112,4 +116,74 @@ fn set_limits() {
     let z = libc::rlimit { rlim_cur: 0, rlim_max: 0 };
     libc::setrlimit(libc::RLIMIT_CORE, &z);
   }
+}
+
+/// ad hoc experiments: vh probe parse|fmt|json|cbor|csv|decode <file> [<docfile>]
+fn probe(a: &[String]) {
+  let t0 = Instant::now();
+  let rd = |p: &str| std::fs::read_to_string(p).expect("read");
+  match a[0].as_str() {
+    "parse" => {
+      let t = rd(&a[1]);
+      match cddl::cddl_from_str(&t, false) {
+        Ok(c) => println!("Ok: {} rules\n{:#?}", c.rules.len(), c),
+        Err(e) => println!("Err: {}", e),
+      }
+    }
+    "all" => {
+      let t = rd(&a[1]);
+      let t1 = Instant::now();
+      let r = cddl::cddl_from_str(&t, false);
+      println!("parse {:.4}s ok={}", t1.elapsed().as_secs_f64(), r.is_ok());
+      let t1 = Instant::now();
+      let r2 = cddl::ast::CDDL::from_slice(t.as_bytes()).map(|_| ());
+      println!("from_slice {:.4}s {:?}", t1.elapsed().as_secs_f64(), r2.is_ok());
+      let t1 = Instant::now();
+      let _ = cddl::parser::root_type_name_from_cddl_str(&t);
+      println!("root_type_name {:.4}s", t1.elapsed().as_secs_f64());
+      if let Ok(c) = r {
+        let t1 = Instant::now();
+        let s = c.to_string();
+        println!("display {:.4}s len={}", t1.elapsed().as_secs_f64(), s.len());
+        let t1 = Instant::now();
+        let _ = cddl::cddl_from_str(&s, false).map(|_| ());
+        println!("reparse {:.4}s", t1.elapsed().as_secs_f64());
+        let t1 = Instant::now();
+        let _ = cddl::ast::parent::ParentVisitor::new(&c).map(|_| ());
+        println!("parent_visitor {:.4}s", t1.elapsed().as_secs_f64());
+      }
+    }
+    "parseq" => {
+      let t = rd(&a[1]);
+      println!("{:?}", cddl::cddl_from_str(&t, false).map(|c| c.rules.len()));
+    }
+    "fmt" => {
+      let t = rd(&a[1]);
+      match cddl::cddl_from_str(&t, false) {
+        Ok(c) => print!("{}", c),
+        Err(e) => println!("Err: {}", e),
+      }
+    }
+    "slice" => {
+      let t = rd(&a[1]);
+      println!("{:?}", cddl::ast::CDDL::from_slice(t.as_bytes()).map(|c| c.rules.len()));
+    }
+    "json" => {
+      let (s, d) = (rd(&a[1]), rd(&a[2]));
+      println!("{:?}", vh::api::vjson(&s, &d, None));
+    }
+    "cbor" => {
+      let (s, d) = (rd(&a[1]), rd(&a[2]));
+      println!("{:?}", vh::api::vcbor(&s, &vh::dv::unhex(d.trim()), None));
+    }
+    "csv" => {
+      let (s, d) = (rd(&a[1]), rd(&a[2]));
+      println!("{:?}", vh::api::vcsv(&s, &d, Some(a.get(3).map(|x| x == "header").unwrap_or(false)), None));
+    }
+    "decode" => {
+      println!("{:?}", cddl::validator::cbor_value::decode_cbor(&vh::dv::unhex(a[1].trim())));
+    }
+    _ => eprintln!("unknown probe"),
+  }
+  eprintln!("[{:.3}s]", t0.elapsed().as_secs_f64());
 }
